@@ -207,7 +207,11 @@ CLAIMS["C20"] = dict(
          "returned matrix, after costIV / residualIV / diff_lossIV / sensitivityIV moved the initial state and back, after a non-target parameter of the shared ode "
          "changed and back, after scrambling the ode, another theta, another loss object on the same ode, a deepcopy; theta as list / tuple / array / numpy scalars / "
          "omitted; constructor arguments as list / tuple / float or int arrays), each evaluation judged against the oracle of the state current at that moment, "
-         "returned arrays kept and compared at the end; the Lean sensToJtj / hessian are functions of their explicit arguments (no instance state).",
+         "returned arrays kept and compared at the end; the Lean sensToJtj / hessian are functions of their explicit arguments (no instance state). "
+         "Named selections are run through systematically (all observed states in every non-declared order, subsets in non-declared order, target_param None / all permuted / "
+         "subset; weights that differ between the observed states, one of them exactly 0 or 1; one observation time; a parameter exactly 0) and judged in the NAMED order: "
+         "jtj_perm_equivariant proves that re-ordering the observed states leaves jtj unchanged exactly when the weights are re-ordered along "
+         "(jtj_weights_not_permuted_counterexample otherwise); time-dependent models with a parameter acting only inside a time window are part of every run.",
     note="Assumed (as in C13): integrating a sensitivity system yields the derivative of the solution; scipy integrators within tolerance; finite-difference "
          "Hessian of the reference cost accurate to ~1e-6 relative (comparisons at 1e-3). Defects found and repaired in /repo: sign / weight of the second-order term "
          "(0f0d14a), per-observation weight vector for one observed state (62436c6), missing mixed state-parameter and parameter-parameter second derivatives in the "
@@ -250,7 +254,10 @@ CLAIMS["C07"] = dict(
          "sensitivity / gradient / sensitivityIV / jac (all five classes, five integrator methods, full_output) against Richardson-extrapolated central differences of the independent reference cost "
          "and of pygom's own cost. Histories (state machine of C06): sensitivity / gradient / jac / sensitivityIV / jacIV / diff_loss / diff_lossIV after any sequence of calls of the eleven "
          "entry points (costIV moving a free initial value, a second loss object or the user re-parameterising the shared model, deepcopy), with observations / x0 / grid / weights / spreads in "
-         "float and integer containers, against the reference derivative for the values the object holds at that moment.",
+         "float and integer containers, against the reference derivative for the values the object holds at that moment. Every run also covers time-dependent models in which a "
+         "parameter acts only inside a time window / after a threshold time / multiplies a state that is exactly zero for part of the trajectory (observations after the window closed; "
+         "reference integrated piecewise between the non-smooth time points), a linear model, a declared state that never changes, (state_name, target_param, target_state) each as "
+         "all-permuted / all-declared / None / subset-permuted in turn, weights exactly 0 or 1 for one state, one observation time, a parameter exactly 0, and jacIV next to jac.",
     note="On /repo without proposed_fixes/C07-*.diff this check reports VIOLATION (genuine defects: wrong gradient for observed states not in ascending index order; gradient in sorted instead of supplied "
          "target_param order; sensitivityIV with target_state raises TypeError; a per-observation weight vector with one observed state raises; GammaLoss with one observed state raised until fix 9a6447c) - "
          "see proposed_fixes/C07-*.diff, findings/C07_demo.py, corpus/C07/. Trusted: Lean kernel + Mathlib; harness generator, reference integration, finite differences "
